@@ -53,7 +53,7 @@ for f in "$DIR"/*.lean; do
 
     # --- type-check ---------------------------------------------------------
     if "$LEAN" "$f" >"$TMP/log" 2>&1; then
-        if grep -q -e 'error' -e "declaration uses 'sorry'" "$TMP/log"; then
+        if grep -q -e ': error' -e "declaration uses 'sorry'" "$TMP/log"; then
             echo "FAIL: $base: lean reported problems:" >&2
             cat "$TMP/log" >&2
             ok=0
@@ -85,9 +85,10 @@ for f in "$DIR"/*.lean; do
         done
         if "$LEAN" "$TMP/audit/$base" >"$TMP/alog" 2>&1; then
             # collect every axiom name mentioned in the "depends on axioms: [...]" reports
-            bad=$(tr '\n' ' ' <"$TMP/alog" \
-                  | sed 's/depends on axioms: \[/\n@@/g' \
-                  | sed -n 's/^@@\([^]]*\)\].*/\1/p' \
+            bad=$(awk '{ s = s " " $0 }
+                       END { while (match(s, /depends on axioms: \[[^]]*\]/)) {
+                                 print substr(s, RSTART + 20, RLENGTH - 21)
+                                 s = substr(s, RSTART + RLENGTH) } }' "$TMP/alog" \
                   | tr ',' '\n' | sed 's/^ *//; s/ *$//' | sort -u \
                   | grep -v -x -e propext -e Classical.choice -e Quot.sound -e '')
             if [ -n "$bad" ]; then
